@@ -421,7 +421,7 @@ var (
 	c10QVal    = []string{"prod", "dev"}
 	c10IPs     = []string{"203.0.113.0/24", "203.0.113.7", "10.0.0.0/8", "2001:db8::/32", "::1", "192.0.2.1/32"}
 
-	c10ReqPaths   = []string{"/", "/a", "/a/", "/a/b", "/a/b/", "/a-b", "/ab", "/a/b/c/d", "/a//b", "/a/./b", "/a/b/..", "/a/../a/b", "/b", "/c", "/a%2Fb", "/A", "/a/b/c", "/b/x", "/ab/c"}
+	c10ReqPaths   = []string{"/", "/a", "/a/", "/a/b", "/a/b/", "/a-b", "/ab", "/a/b/c/d", "/a//b", "/a/./b", "/a/b/..", "/a/../a/b", "/b", "/c", "/a%2Fb", "/A", "/a/b/c", "/b/x", "/ab/c", "/a-b/c", "/ab/c/d", "/a.b/c", "/c-x/y"}
 	c10ReqHosts   = []string{"hooks.example.com", "HOOKS.Example.COM", "hooks.example.com:8443", "example.com", "api.example.com", "evilexample.com", "x.y.example.com", "other.test", "hooks.example.com.", "[2001:db8::1]:443", "", "example.com.:80", "127.0.0.1:8080"}
 	c10ReqRemotes = []string{"203.0.113.7:5555", "203.0.113.8:1", "203.0.114.7:5555", "10.1.2.3:80", "[2001:db8::5]:443", "[::1]:9", "[::ffff:203.0.113.7]:80", "203.0.113.7", "garbage", "192.0.2.1:1", "192.0.2.2:1"}
 )
@@ -517,7 +517,7 @@ func genC10Req(t *rapid.T, routes []RouteSpec) FReq {
 	req := FReq{Method: "POST", Path: rapid.SampledFrom(c10ReqPaths).Draw(t, "rpath"), Host: "hooks.example.com", Remote: "203.0.113.7:5555"}
 	if len(routes) > 0 && rapid.IntRange(0, 4).Draw(t, "aimed") > 0 {
 		r := routes[rapid.IntRange(0, len(routes)-1).Draw(t, "aim")]
-		req.Path = r.Path + rapid.SampledFrom([]string{"", "", "/", "/sub", "/./", "-x", "x"}).Draw(t, "suffix")
+		req.Path = r.Path + rapid.SampledFrom([]string{"", "", "/", "/sub", "/./", "-x", "x", "-x/y", "x/y", ".v2/a/b", "%2Fsub", "/sub/deeper"}).Draw(t, "suffix")
 		if r.Path == "/" {
 			req.Path = rapid.SampledFrom(c10ReqPaths).Draw(t, "rpath2")
 		}
